@@ -1,5 +1,6 @@
 import MoneroModel.Proofs.ExtraComplete
 import MoneroModel.Proofs.ExtraLen
+import MoneroModel.Proofs.ExtraSpec
 open Monero Monero.Extra
 /-! # C16 — transaction extra: well-formed sub-field sequences round-trip; parsing is total
 
@@ -130,6 +131,181 @@ theorem C16_never_fails_tx (p : Prefix) (e r : Bytes) (hp : wfPrefix p) (he : e.
     rw [hflat] at this
     exact this
 
+/-! ## decoder soundness, exactness, idempotence (audit G11) -/
+
+/-- **Sub-field decoder soundness (any bytes).** Whatever `SubField::consensus_decode` accepts is a well-formed
+sub-field, the bytes it consumed are exactly its encoding up to the merge-mining size byte (read and ignored), and a
+padding of fewer than 255 bytes is only produced when the input is exhausted. -/
+theorem C16_decoder_sound (vk : Bytes → Bool) (b : Bytes) (sf : SubField) (r : Bytes)
+    (h : subFieldRd vk b = (some sf, r)) :
+    WFField vk sf ∧ (ShortPad sf → r = []) ∧ ∃ sz, b = encSubSz sz sf ++ r := subFieldRd_sound vk b sf r h
+
+/-- **`tryParse` without accumulators.** Three equations that determine `tryParse` (and hence the flag, the field
+list and `pre`) by recursion on the input: the empty input; a successful read puts the sub-field in front of the parse
+of the rest; a failed read sets the flag, empties `pre` and continues from where the cursor was left. In particular the
+`npre` bookkeeping of `loop` computes exactly "the fields read before the first failure". -/
+theorem C16_parse_equations (vk : Bytes → Bool) :
+    tryParse vk [] = ⟨false, [], []⟩ ∧
+    (∀ b sf r, b ≠ [] → subFieldRd vk b = (some sf, r) →
+      tryParse vk b = ⟨(tryParse vk r).err, sf :: (tryParse vk r).fields, sf :: (tryParse vk r).pre⟩) ∧
+    (∀ b r, b ≠ [] → subFieldRd vk b = (none, r) → tryParse vk b = ⟨true, (tryParse vk r).fields, []⟩) :=
+  ⟨tryParse_nil vk, fun _ _ _ hb h => tryParse_some vk hb h, fun _ _ hb h => tryParse_none vk hb h⟩
+
+/-- **Every result is a well-formed sequence**, `Ok` or `Err`, on ANY bytes (a short padding can only be the last
+field because the decoder only stops a padding early at the end of the input). -/
+theorem C16_parsed_wf (vk : Bytes → Bool) (e : Bytes) : WFSeq vk (tryParse vk e).fields := tryParse_wf vk e
+
+/-- **`Ok` is exact.** If `try_parse` returns `Ok` the input is byte for byte the concatenation of the encodings of
+the returned sub-fields, up to the merge-mining size bytes (`EncUpToSize`); so the lengths agree, and without a
+merge-mining field the input IS the re-serialisation. -/
+theorem C16_ok_exact (vk : Bytes → Bool) (e : Bytes) (h : (tryParse vk e).err = false) :
+    EncUpToSize (tryParse vk e).fields e ∧
+    (encFields (tryParse vk e).fields).length = e.length ∧
+    ((∀ f ∈ (tryParse vk e).fields, isMM f = false) → encFields (tryParse vk e).fields = e) := by
+  have h1 := tryParse_ok_exact vk e h
+  refine ⟨h1, ?_, fun hm => ?_⟩
+  · rw [encFields_eq]; exact h1.length_eq.symm
+  · rw [encFields_eq]; exact (h1.eq_flat hm).symm
+
+/-- **Idempotence.** For any raw extra within the allocation cap, converting what `try_parse` returned (`Ok` or `Err`)
+back to raw bytes succeeds, and parsing those bytes is `Ok` with exactly the same sub-fields. -/
+theorem C16_reparse (vk : Bytes → Bool) (e : Bytes) (hc : e.length ≤ CAP) :
+    ∃ raw, toRaw (tryParse vk e).fields = some raw ∧
+      tryParse vk raw = ⟨false, (tryParse vk e).fields, (tryParse vk e).fields⟩ := by
+  have hw := tryParse_wf vk e
+  have hl := C16_parsed_not_longer vk e
+  exact (C16_roundtrip vk _ hw (Nat.le_trans hl hc)).elim fun raw h => ⟨raw, h.1, h.2.2.1⟩
+
+/-- **`pre`, semantically.** `pre` is THE maximal chain of successful sub-field reads from offset 0 (`PreChain`:
+it stops at the end of the input or at the first failed read, and there is exactly one such chain), and its encoding
+(up to merge-mining size bytes) is an initial part of the input. -/
+theorem C16_pre_semantics (vk : Bytes → Bool) (e : Bytes) :
+    PreChain vk e (tryParse vk e).pre ∧ (∀ l, PreChain vk e l → l = (tryParse vk e).pre) ∧
+    (∃ p t, e = p ++ t ∧ EncUpToSize (tryParse vk e).pre p) :=
+  ⟨tryParse_preChain vk e, fun _ hl => hl.unique (tryParse_preChain vk e), tryParse_pre_prefix vk e⟩
+
+/-- **A valid prefix survives whatever follows.** Well-formed sub-fields `fs` (no padding shorter than 255) followed
+by ANY bytes `t`: the parse returns `fs` first, unchanged, then the parse of `t`; the flag is that of `t`; `fs` is
+part of `pre`. Hence the transaction key / additional keys found in `fs` are the ones the accessors return, whatever
+junk follows. -/
+theorem C16_prefix_survives (vk : Bytes → Bool) (fs : List SubField) (t : Bytes)
+    (hw : ∀ f ∈ fs, WFField vk f ∧ ¬ ShortPad f) :
+    tryParse vk ((fs.map encSub).flatten ++ t) =
+      ⟨(tryParse vk t).err, fs ++ (tryParse vk t).fields, fs ++ (tryParse vk t).pre⟩ ∧
+    (∀ k, txPubkey fs = some k → txPubkey (tryParse vk ((fs.map encSub).flatten ++ t)).fields = some k) ∧
+    (∀ ks, txAdditionalPubkeys fs = some ks →
+      txAdditionalPubkeys (tryParse vk ((fs.map encSub).flatten ++ t)).fields = some ks) := by
+  have h := tryParse_flat_append vk t fs hw
+  unfold flat at h
+  refine ⟨h, fun k hk => ?_, fun ks hk => ?_⟩
+  · rw [h]; exact txPubkey_append_some hk _
+  · rw [h]; exact txAdd_append_some hk _
+
+/-- **The well-formedness restriction is necessary.** A padding of fewer than 255 bytes followed by at least one more
+sub-field never round-trips: the parse of the concatenated encodings is not `Ok` with the same sequence (the padding
+swallows following zero bytes or fails on a non-zero one). -/
+theorem C16_short_padding_not_roundtrip (vk : Bytes → Bool) (n : Nat) (hn : n < 255) (g : SubField) (rest : List SubField) :
+    ¬ ((tryParse vk ((((SubField.padding n) :: g :: rest).map encSub).flatten)).err = false ∧
+       (tryParse vk ((((SubField.padding n) :: g :: rest).map encSub).flatten)).fields = .padding n :: g :: rest) := by
+  rintro ⟨he, hf⟩
+  have hb : ((((SubField.padding n) :: g :: rest).map encSub).flatten) = encSub (.padding n) ++ flat (g :: rest) := by
+    simp [flat]
+  have hne : encSub (.padding n) ++ flat (g :: rest) ≠ [] := by simp [encSub]
+  rw [hb] at he hf
+  cases h : subFieldRd vk (encSub (.padding n) ++ flat (g :: rest)) with
+  | mk o r =>
+    cases o with
+    | none => rw [tryParse_none vk hne h] at he; cases he
+    | some sf =>
+      rw [tryParse_some vk hne h] at hf
+      have hsf : sf = .padding n := (List.cons.inj hf).1
+      subst hsf
+      obtain ⟨_, hs, sz, hbz⟩ := subFieldRd_sound vk _ _ r h
+      have hr : r = [] := hs (by simp only [ShortPad]; omega)
+      subst hr
+      have : flat (g :: rest) = [] := by
+        have e1 : encSubSz sz (.padding n) = encSub (.padding n) := rfl
+        rw [e1] at hbz
+        have := List.append_cancel_left hbz
+        exact this
+      rw [flat_cons] at this
+      exact encSub_ne_nil g (List.append_eq_nil_iff.mp this).1
+
+/-! ## the encoder is the by-the-book layout (independent `Spec.Extra`) -/
+
+/-- **Layout = spec.** For every sub-field value a Rust program can hold (`MMOK`: `u64` depth, 32-byte root; implied
+by `WFField`) the model's encoding is `Spec.Extra.layout` of it, and a sequence encodes to `Spec.Extra.serialise`.
+The merge-mining size byte, computed in `u8` arithmetic as `32 + len(varint depth)`, does not wrap: it is the LEB128
+of the real size `len(varint depth) + 32 ∈ 33..42`. -/
+theorem C16_layout_is_spec :
+    (∀ sf, MMOK sf → encSub sf = Spec.Extra.layout (Drv.C16.toSpec sf)) ∧
+    (∀ fs : List SubField, (∀ f ∈ fs, MMOK f) →
+      (fs.map encSub).flatten = Spec.Extra.serialise (fs.map Drv.C16.toSpec)) ∧
+    (∀ d, d < 2^64 → (UInt8.ofNat (32 + (encVarint d).length)).toNat = (encVarint d).length + 32 ∧
+      33 ≤ (encVarint d).length + 32 ∧ (encVarint d).length + 32 ≤ 42) :=
+  ⟨encSub_eq_layout, flat_eq_serialise, mm_size_byte⟩
+
+/-- **Round trip against the spec layout.** Parsing the by-the-book serialisation of a well-formed sequence returns
+`Ok` with exactly that sequence, and (within the cap) the raw conversion produces exactly those bytes. -/
+theorem C16_roundtrip_spec (vk : Bytes → Bool) (fs : List SubField) (hw : WFSeq vk fs) :
+    tryParse vk (Spec.Extra.serialise (fs.map Drv.C16.toSpec)) = ⟨false, fs, fs⟩ ∧
+    ((encFields fs).length ≤ CAP → toRaw fs = some (Spec.Extra.serialise (fs.map Drv.C16.toSpec))) := by
+  have hs := flat_eq_serialise fs (fun f hf => MMOK_of_WF (WFSeq_all hw f hf))
+  unfold flat at hs
+  rw [← hs]
+  refine ⟨tryParse_flat vk fs hw, fun hc => ?_⟩
+  rw [encFields_eq] at hc
+  exact toRaw_eq fs hc
+
+/-! ## the allocation cap is the exact domain -/
+
+/-- **Above the cap.** An `ExtraField` whose buffer exceeds the allocation cap has no raw form (the `unwrap` in
+`From<ExtraField> for RawExtraField` panics); with `C16_roundtrip` the conversion of a well-formed sequence succeeds
+exactly when the buffer is within the cap. -/
+theorem C16_over_cap (fs : List SubField) (hl : (encFields fs).length < 2^64) :
+    (CAP < (encFields fs).length → toRaw fs = none) ∧
+    ((toRaw fs).isSome = true ↔ (encFields fs).length ≤ CAP) := by
+  refine ⟨fun h => toRaw_over_cap fs h hl, ?_, fun h => ?_⟩
+  · intro h
+    by_cases hc : (encFields fs).length ≤ CAP
+    · exact hc
+    · rw [toRaw_over_cap fs (by omega) hl] at h; cases h
+  · rw [encFields_eq] at h; rw [toRaw_eq fs h]; rfl
+
+/-- **The one way an extra fails the enclosing transaction: its size.** With everything else well formed, the prefix
+carrying extra bytes `e` decodes if and only if `e` is within the allocation cap — whatever `e` contains
+(complements `C16_never_fails_tx`, which assumes the cap). -/
+theorem C16_tx_fails_iff (p : Prefix) (e r : Bytes) (hp : wfPrefix p) (hl : e.length < 2^64) :
+    ((prefix' (encPrefix { p with extra := e } ++ r)).isSome = true ↔ e.length ≤ CAP) ∧
+    ((vec sizes.u8 u8 (encVarint e.length ++ e ++ r)).isSome = true ↔ e.length ≤ CAP) :=
+  ⟨prefix_isSome_iff p e r hp hl, vec_u8_isSome_iff e r hl⟩
+
+/-! ## the tag bytes are the regenerated ones -/
+
+/-- **Tags = `Gen` tables.** The tag byte the model's encoder writes for each variant is the one in the regenerated
+`Gen.subFieldEncode`; a successful read starts with a tag that `Gen.subFieldDecode` maps to the variant returned; a
+first byte outside `Gen.subFieldDecode` fails the read having consumed just that byte. (The tables are regenerated
+from the current source on every run, so a changed tag in the library breaks this theorem — beside relation B.) -/
+theorem C16_tags_are_generated (vk : Bytes → Bool) :
+    (∀ sf, (encSub sf).head? = (Gen.subFieldEncode.lookup (variantOf sf)).map UInt8.ofNat) ∧
+    (∀ b sf r, subFieldRd vk b = (some sf, r) →
+      ∃ t rest, b = t :: rest ∧ (t.toNat, variantOf sf) ∈ Gen.subFieldDecode) ∧
+    (∀ t xs, (∀ v, (t.toNat, v) ∉ Gen.subFieldDecode) → subFieldRd vk (t :: xs) = (none, xs)) :=
+  ⟨encSub_tag, subFieldRd_tag vk, subFieldRd_unknown_tag vk⟩
+
+/-! ## instantiation with the driver's Ed25519 key validity -/
+
+/-- `C16_roundtrip` and `C16_reparse` for `vk := Drv.C16.edValid` (decodes to a curve point of the reference Ed25519
+arithmetic and re-encodes to the same 32 bytes) — the instance the driver runs against the library -/
+theorem C16_roundtrip_ed25519 (fs : List SubField) (hw : WFSeq Drv.C16.edValid fs) (hc : (encFields fs).length ≤ CAP) :
+    ∃ raw, toRaw fs = some raw ∧ raw = (fs.map encSub).flatten ∧
+      tryParse Drv.C16.edValid raw = ⟨false, fs, fs⟩ ∧ rawTryParse Drv.C16.edValid raw = fs :=
+  C16_roundtrip Drv.C16.edValid fs hw hc
+theorem C16_reparse_ed25519 (e : Bytes) (hc : e.length ≤ CAP) :
+    ∃ raw, toRaw (tryParse Drv.C16.edValid e).fields = some raw ∧
+      tryParse Drv.C16.edValid raw = ⟨false, (tryParse Drv.C16.edValid e).fields, (tryParse Drv.C16.edValid e).fields⟩ :=
+  C16_reparse Drv.C16.edValid e hc
+
 /-! ## the hypotheses are satisfiable; small evaluations of the model -/
 
 example : WFSeq (fun _ => true)
@@ -143,5 +319,19 @@ example : tryParse (fun _ => true) [0x02, 0x01, 0xaa, 0x00, 0x00] = ⟨false, [.
 example : tryParse (fun _ => true) [0x02, 0x00, 0x05, 0xde, 0x01, 0x07] =
     ⟨true, [.nonce [], .minerGate [7]], [.nonce []]⟩ := by decide
 example : Clean (fun _ => true) [0x00, 0x00] := Clean.step (by simp) (by decide : subFieldRd _ _ = (some (.padding 1), [])) Clean.nil
+
+/-- `edValid` accepts some key (the Ed25519 base point), so `WFSeq edValid` has inhabitants with keys -/
+example : WFSeq Drv.C16.edValid [.txPub basePointBytes, .addKeys [basePointBytes], .padding 3] := by
+  refine ⟨⟨rfl, edValid_basePoint⟩, by simp [ShortPad], ⟨?_, by decide, by decide⟩, by simp [ShortPad], (by decide : 3 ≤ 255)⟩
+  intro k hk
+  have : k = basePointBytes := by simpa using hk
+  subst this; exact ⟨rfl, edValid_basePoint⟩
+example : MMOK (.mergeMining 300 (List.replicate 32 9)) := by simp [MMOK]
+example : PreChain (fun _ => true) [0x02, 0x00, 0x05, 0xde] [.nonce []] :=
+  PreChain.step (by simp) (by decide : subFieldRd _ _ = (some (.nonce []), [0x05, 0xde]))
+    (PreChain.fail (r := [0xde]) (by simp) (by decide))
+/-- a short padding in the middle: the two paddings merge, `P n, P m ↦ P (n+m+1)` -/
+example : tryParse (fun _ => true) (((([.padding 1, .padding 2] : List SubField)).map encSub).flatten) =
+    ⟨false, [.padding 4], [.padding 4]⟩ := by decide
 
 end C16
